@@ -82,7 +82,7 @@ func runC06(c *Ctx) {
 	}
 	// every string compared with Status.CurrentEvent anywhere is an event symbol
 	uses := currentEventUses(p)
-	c.floor("event-tables", "comparisons with CurrentEvent", len(uses), 10)
+	c.floor("event-tables", "comparisons with CurrentEvent", len(uses), 4)
 	for _, u := range uses {
 		c.Sites++
 		c.check(allSyms[u.Const], "event-tables", "use:"+u.Where+":"+u.Const, u.Pos, "compared string is an event symbol", fmt.Sprintf("%q is compared with Status.CurrentEvent but is not the symbol of any event", u.Const))
@@ -99,7 +99,7 @@ func runC06(c *Ctx) {
 		nHandlers++
 		handlerOut[ev.Name] = eg.Outcomes(h)
 	}
-	c.floor("no-stuck-emit", "events with a handler", nHandlers, 20)
+	c.floor("no-stuck-emit", "events with a handler", nHandlers, 12)
 
 	// operations
 	type opInfo struct {
@@ -194,7 +194,7 @@ func runC06(c *Ctx) {
 	}
 	sort.Strings(waitNames)
 	c.role("wait events", strings.Join(waitNames, ","))
-	c.floor("wait-resumer", "wait events", len(waitNames), 6)
+	c.floor("wait-resumer", "wait events", len(waitNames), 5)
 
 	// terminal event: the last declared constant; must be a wait event without resumer
 	terminal := events[len(events)-1].Name
@@ -268,7 +268,7 @@ func runC06(c *Ctx) {
 		h := eg.Handler[w]
 		offers := false
 		if h != nil {
-			for callee := range p.Index().Info[h].TCalls {
+			for callee := range tcallsOf(p, h) {
 				if callee.Name() == "SetCurrentPlayer" {
 					offers = true
 				}
@@ -686,7 +686,7 @@ func runC06Start(c *Ctx, ea *engineAnchors, eg *EventGraph, outs []outcome) {
 	for _, ps := range paths {
 		emits := false
 		for _, e := range ps.Events {
-			if e.Kind == "call" && e.Fn == eg.Emit {
+			if _, ok := eg.emitName(e); ok {
 				emits = true
 			}
 		}
@@ -818,7 +818,7 @@ func runC06Close(c *Ctx, ea *engineAnchors, eg *EventGraph, handlerOut map[strin
 			for _, ps := range paths {
 				emitIdx, setIdx := -1, -1
 				for i, e := range ps.Events {
-					if e.Kind == "call" && e.Fn == eg.Emit {
+					if _, ok := eg.emitName(e); ok {
 						emitIdx = i
 					}
 					if e.Kind == "call" && e.Fn == settle {
